@@ -132,6 +132,25 @@ PROPS = {
         "exhaustive": True,
         "assumptions": ["float element arithmetic is pinned up to the opaque Float32 operations"],
     },
+    "C20": {
+        "scenarios": lambda tier, q: [
+            {"name": "topo", "args": []},
+            {"name": "exec", "args": ["LIST.NEIGHBOR", "500" if tier == "quick" else "5000"]},
+        ],
+        "signature": lambda req: "topo" if req.startswith("( topo") else sig_exec(req),
+        "rule": "Topology::find_neighbors for every ntotal in 0..160 (thorough 0..700) x ndim in 0..4: every centre incl. ntotal and ntotal+1 and all 12 radii (0, lattice distances, midpoints between them, 1000, negative) for ntotal <= 27, sampled centres and radii beyond; perfect powers up to 4096 in 3..6 dimensions, dimensions up to 70, NaN / inf radius; answers compared with the model and with the set comprehension over the integer ceiling-root hypercube; the four LIST.NEIGHBOR* instructions by NAME on generated states with negative / oversized / NaN operands; non-trivial = a neighbourhood was returned",
+        "exhaustive": True,
+        "assumptions": ["the f32 radius test sqrt(d^2) <= r is taken as the meaning of 'within the Euclidean radius' (squared distances below 2^24 are exact in f32; sqrt is correctly rounded)", "a NaN radius is not a radius: the centre-membership statement is required only when the test accepts distance 0"],
+    },
+    "C19": {
+        "scenarios": lambda tier, q: [
+            {"name": "listops", "args": []},
+            {"name": "steps", "args": ["LIST.,*.ID,INTVECTOR.FROMINT,!clean"]},
+        ],
+        "signature": sig_exec,
+        "rule": "the seven LIST record instructions by NAME: stack-id vectors of length 0..6 over the 9 valid ids, the ids of stacks that cannot be loaded (7, 8, 12) and invalid ids (0, 13, -1, 99), repeated ids, all typed stacks with empty and non-empty contents, 0..4 records on CODE (flat, nested, atoms), positions in [-2, depth+2], n in 0..4 plus negative and huge; programs that build id vectors with the *.ID instructions, add records, read them back (LIST.GET) and execute them, single-stepped with every transition validated; outcome compared with the record statements (points-based n-th value, declarative id fold); non-trivial = the state changed",
+        "assumptions": [],
+    },
     "C01": {
         "scenarios": lambda tier, q: [
             {"name": "exec", "args": ["*"]},
